@@ -276,7 +276,7 @@ def Sections.adv (s : Sections) : AdvTables :=
     fn := fun f args => (s.advF.find? (fun e => e.1 = (f, args))).map (·.2) }
 
 /-- `validate <opts…> FOCUS <terms> SHAPES <terms> SG <graph> DG <graph> RX <n> …` -/
-def opValidate (toks : List String) : String :=
+def opValidateWith (fmt : Graph → Graph → Out → String) (toks : List String) : String :=
   let (o, rest) := parseOpts toks
   match rest with
   | "FOCUS" :: rest =>
@@ -300,16 +300,34 @@ def opValidate (toks : List String) : String :=
               let sqi := fun (c : Term) => (spt.find? (fun e => e.1 = c)).map (·.2)
               let sg' := sg ++ systemTriples.filter (· ∉ sg)
               let out := runValidate o sg' dg (rxOfTable tbl) focus useShapes sqf sqi vaf sec.adv
-              match out with
-              | .error e => "err " ++ failStr e
-              | .ok (conf, rs) => "ok " ++ (if conf then "1" else "0") ++ " " ++ toString rs.length ++
-                  String.join (rs.map fun r => " " ++ resultStr r)
+              fmt sg' dg out
             | none => "bad-rx"
           | _ => "bad-dg"
         | _ => "bad-sg"
       | _ => "bad-shapes"
     | _ => "bad-focus"
   | _ => "bad-args"
+
+def opValidate : List String → String :=
+  opValidateWith fun _ _ out => match out with
+    | .error e => "err " ++ failStr e
+    | .ok (conf, rs) => "ok " ++ (if conf then "1" else "0") ++ " " ++ toString rs.length ++
+        String.join (rs.map fun r => " " ++ resultStr r)
+
+def rnodeStr : RNode → String
+  | .fresh idx => "F:" ++ ".".intercalate (idx.map toString)
+  | .cl k => "C:" ++ ".".intercalate (k.map toString)
+  | .term t => termStr t
+
+/-- `report …` (arguments as for `validate`) → `ok <conf> <#results> G <#triples> <s p o>… T <text>`:
+    the report graph and the report text (result blocks left out: their wording is a parameter of the model) -/
+def opReport : List String → String :=
+  opValidateWith fun sg dg out => match out with
+    | .error e => "err " ++ failStr e
+    | .ok (conf, rs) => match createReport sg dg (fun _ => "") conf rs with
+      | .error e => "err " ++ failStr e
+      | .ok (c, g, text) => "ok " ++ (if c then "1" else "0") ++ " " ++ toString rs.length ++ " G " ++ toString g.length ++
+          String.join (g.map fun t => " " ++ rnodeStr t.s ++ " " ++ termStr t.p ++ " " ++ rnodeStr t.o) ++ " T " ++ escape text
 
 def tripleStr (t : Triple) : String := termStr t.s ++ " " ++ termStr t.p ++ " " ++ termStr t.o
 
@@ -480,6 +498,7 @@ def step (line : String) : String :=
     let out := match op with
       | "path" => opPath rest
       | "validate" => opValidate rest
+      | "report" => opReport rest
       | "pipeline" => opPipeline rest
       | "history" => opHistory rest
       | "printpath" => opPrintPath rest
